@@ -9,6 +9,7 @@
    decisions; [admitted a evs] counts admissions of address [a]. *)
 From WG Require Import Base.Prelude Gen.Constants.
 From WG Require Import Ratelimit.Model Ratelimit.Spec Ratelimit.Proofs Ratelimit.Conc.
+From WG Require Ratelimit.Collector.
 Local Open Scope Z_scope.
 
 (* The numbers the property text names, as the code has them now: 20 per
@@ -95,6 +96,23 @@ Theorem C19_conc_collect_race_refuted :
     ~ window_envelope true (init 0 addrs) pre w a.
 Proof. exact conc_collect_race_refuted. Qed.
 Print Assumptions C19_conc_collect_race_refuted.
+
+(* Every call returns: the collector goroutine (ticker, cleanup under the table
+   lock) and a caller whose insert makes the table non-empty (blocking send on
+   stopReset with the table lock held) never block each other, for all
+   schedules of ticks, passes deleting any number of entries, and arrivals. *)
+Theorem C19_collector_never_stuck : forall sched,
+  Collector.stuckb true (Collector.run true Collector.init sched) = false.
+Proof. exact Collector.collector_never_stuck. Qed.
+Print Assumptions C19_collector_never_stuck.
+
+(* ... and this depends on the ticker being stopped when a pass leaves the
+   table empty: without it an explicit schedule ends stuck. *)
+Theorem C19_collector_stuck_without_stop :
+  Collector.stuckb false (Collector.run false Collector.init Collector.stuck_schedule) = true /\
+  Collector.stuckb true (Collector.run true Collector.init Collector.stuck_schedule) = false.
+Proof. exact Collector.collector_stuck_without_stop. Qed.
+Print Assumptions C19_collector_stuck_without_stop.
 
 (* ---- non-vacuity ---- *)
 (* a valid history with a burst, the 50 ms edge, a pass at the 1 s edge and a
